@@ -105,7 +105,7 @@ Qed.
 Lemma iterate_enc t1 r :
   spec_iterate (enc (t1 :: r)) =
   Ok ({| e_off := 0; e_num := fst t1; e_len := zlen (snd t1) |}
-      :: cut_empty (elems_of r (0 + 2 + zlen (snd t1)))).
+      :: elems_of r (0 + 2 + zlen (snd t1))).
 Proof. unfold spec_iterate, reported. rewrite elements_enc. reflexivity. Qed.
 
 Definition nel (e : elem) : Prop := ~ In (e_num e) [0; 3; 61; 48; 221].
@@ -119,12 +119,10 @@ Proof.
   induction l as [|t r IH]; intros off H; [constructor|].
   inversion H as [|? ? Ht Hr]; subst. cbn [elems_of]. constructor; [exact Ht|]. apply IH. exact Hr.
 Qed.
-Lemma cut_empty_Forall (P : elem -> Prop) l : Forall P l -> Forall P (cut_empty l).
-Proof.
-  intros H. rewrite Forall_forall in *. intros e He. apply H. apply cut_empty_In. exact He.
-Qed.
-Lemma neutral_reported l off : neutral l -> Forall nel (cut_empty (elems_of l off)).
-Proof. intros H. apply cut_empty_Forall, elems_of_neutral, H. Qed.
+(* every element of the encoding is reported (finding F44), so what iteration sees behind the leading elements is
+   exactly elems_of of the remaining list *)
+Lemma neutral_reported l off : neutral l -> Forall nel (elems_of l off).
+Proof. apply elems_of_neutral. Qed.
 
 (* ---------- the folds ignore elements carrying other numbers ---------- *)
 Lemma sp_ssid_skip tags pre rest : Forall (fun e => e_num e <> 0) rest ->
@@ -236,7 +234,7 @@ Proof.
   assert (Hit : spec_iterate tags =
     Ok ({| e_off := 0; e_num := 0; e_len := zlen ssid |}
         :: {| e_off := 0 + 2 + zlen ssid; e_num := 3; e_len := 1 |}
-        :: cut_empty (elems_of extras (0 + 2 + zlen ssid + 2 + 1)))).
+        :: elems_of extras (0 + 2 + zlen ssid + 2 + 1))).
   { unfold tags. cbn [app]. rewrite iterate_enc. reflexivity. }
   assert (Hb1 : body_of tags {| e_off := 0; e_num := 0; e_len := zlen ssid |} = ssid).
   { exact (body_of_at [] 0 ssid (enc ((3, [ch]) :: extras)) 0 eq_refl). }
@@ -250,8 +248,7 @@ Proof.
 Qed.
 
 (* DS element first (association and reassociation response) *)
-Lemma ds_tags ch mid extras : Forall (fun t => ~ In (fst t) [0; 3; 61; 48; 221] /\ snd t <> []) mid ->
-  neutral extras ->
+Lemma ds_tags ch mid extras : neutral mid -> neutral extras ->
   let tags := enc ([(3, [ch])] ++ mid ++ extras) in
   exists els, spec_iterate tags = Ok els /\ 2 <= zlen tags /\
     sp_ssid tags els = zero33 /\ sp_hidden tags els = 0 /\
@@ -259,7 +256,7 @@ Lemma ds_tags ch mid extras : Forall (fun t => ~ In (fst t) [0; 3; 61; 48; 221] 
 Proof.
   intros Hm Hn tags.
   assert (Hit : spec_iterate tags =
-    Ok ({| e_off := 0; e_num := 3; e_len := 1 |} :: cut_empty (elems_of (mid ++ extras) (0 + 2 + 1)))).
+    Ok ({| e_off := 0; e_num := 3; e_len := 1 |} :: elems_of (mid ++ extras) (0 + 2 + 1))).
   { unfold tags. cbn [app]. rewrite iterate_enc. reflexivity. }
   assert (Hb : body_of tags {| e_off := 0; e_num := 3; e_len := 1 |} = [ch]).
   { exact (body_of_at [] 3 [ch] (enc (mid ++ extras)) 0 eq_refl). }
@@ -267,8 +264,7 @@ Proof.
   clearbody tags.
   eexists. split; [exact Hit|]. split; [exact Hl|].
   apply folds_ds; auto. apply neutral_reported.
-  apply Forall_app. split; [|exact Hn].
-  eapply Forall_impl; [|exact Hm]. cbv beta. tauto.
+  apply Forall_app. split; [exact Hm | exact Hn].
 Qed.
 
 (* ---------- the parsers on a generated frame ---------- *)
@@ -299,12 +295,12 @@ Lemma parse_sta_eq st a1 a2 a3 fixedb fixed tags els ssidv chv :
   zlen fixedb = fixed -> 2 <= zlen tags ->
   spec_iterate tags = Ok els -> sp_ssid tags els = ssidv -> s_chan false tags els = chv ->
   s_parse_sta (mgmt_frame st (s_mgmt_header st a1 a2 a3) (fixedb ++ tags)) st fixed =
-  Ok {| s_channel := chv; s_randomized := randomized_of a2; s_transmitter := a2; s_receiver := zero6;
+  Ok {| s_channel := chv; s_randomized := randomized_of a2; s_transmitter := a2; s_receiver := a1;
         s_bssid := a3; s_ssid := ssidv; s_broadcast_ssid := 0; s_tags := tags |}.
 Proof.
   intros Hst M1 M2 M3 Hf Hl Hit H1 H3.
   destruct (s_addr_mgmt st a1 a2 a3 (fixedb ++ tags) M1 M2 M3) as (A1 & A2 & A3).
-  unfold s_parse_sta. rewrite (s_is_mgmt _ _ _ Hst), A2, A3. cbn [negb].
+  unfold s_parse_sta. rewrite (s_is_mgmt _ _ _ Hst), A1, A2, A3. cbn [negb].
   change (f_body (mgmt_frame st (s_mgmt_header st a1 a2 a3) (fixedb ++ tags))) with (fixedb ++ tags).
   cbv zeta.
   rewrite (zskipn_app_len fixedb tags fixed) by (symmetry; exact Hf).
@@ -367,7 +363,7 @@ Lemma roundtrip_probe_resp : forall a1 a2 a3 ssid ch now extras,
   mac_ok a1 -> mac_ok a2 -> mac_ok a3 -> ssid_ok ssid -> zlen ssid <= 32 -> u8 ch -> 0 <= now < 2 ^ 64 ->
   wf_tags extras -> neutral extras ->
   exists f, spec_classify (s_probe_resp a1 a2 a3 ssid ch now extras) None = Ok f /\
-    s_parse_probe_resp f = Ok {| b_transmitter := zero6; b_receiver := zero6; b_bssid := a3; b_ssid := ssid_field ssid;
+    s_parse_probe_resp f = Ok {| b_transmitter := a2; b_receiver := a1; b_bssid := a3; b_ssid := ssid_field ssid;
                                  b_hidden := hidden_of ssid; b_channel := ch; b_wps := 0; b_enc := 0; b_wpa := wpa0;
                                  b_rsn := rsn0; b_tags := enc ([(0, ssid); (3, [ch])] ++ extras) |}.
 Proof.
@@ -381,7 +377,7 @@ Proof.
       by (unfold s_probe_resp; rewrite <- !app_assoc; reflexivity).
     apply classify_mgmt; auto; st_in.
   - unfold s_parse_probe_resp.
-    apply (parse_bss_eq 5 a1 a2 a3 _ 12 10 false _ els); auto; first [st_in | apply cap_bss12].
+    apply (parse_bss_eq 5 a1 a2 a3 _ 12 10 true _ els); auto; first [st_in | apply cap_bss12].
 Qed.
 
 Lemma roundtrip_assoc_resp : forall a1 a2 a3 ch extras,
@@ -392,8 +388,8 @@ Lemma roundtrip_assoc_resp : forall a1 a2 a3 ch extras,
                                  b_rsn := rsn0; b_tags := enc ([(3, [ch]); (1, DEFAULT_RATES)] ++ extras) |}.
 Proof.
   intros a1 a2 a3 ch extras M1 M2 M3 Hch Hwf Hn.
-  assert (Hm : Forall (fun t : tag => ~ In (fst t) [0; 3; 61; 48; 221] /\ snd t <> []) [(1, DEFAULT_RATES)]).
-  { constructor; [|constructor]. split; [cbn [fst In]; lia | discriminate]. }
+  assert (Hm : neutral [(1, DEFAULT_RATES)]).
+  { constructor; [|constructor]. cbn [fst In]. lia. }
   destruct (ds_tags ch [(1, DEFAULT_RATES)] extras Hm Hn) as (els & Hit & Hl & H1 & H2 & H3 & H4).
   eexists. split.
   - replace (s_assoc_resp a1 a2 a3 ch extras)
@@ -427,7 +423,7 @@ Qed.
 Lemma roundtrip_sta : forall a1 a2 a3 ap ssid ch extras,
   mac_ok a1 -> mac_ok a2 -> mac_ok a3 -> mac_ok ap -> ssid_ok ssid -> zlen ssid <= 32 -> u8 ch ->
   wf_tags extras -> neutral extras ->
-  let expect := {| s_channel := ch; s_randomized := randomized_of a2; s_transmitter := a2; s_receiver := zero6;
+  let expect := {| s_channel := ch; s_randomized := randomized_of a2; s_transmitter := a2; s_receiver := a1;
                    s_bssid := a3; s_ssid := ssid_field ssid; s_broadcast_ssid := 0;
                    s_tags := enc ([(0, ssid); (3, [ch])] ++ extras) |} in
   (exists f, spec_classify (s_probe_req a1 a2 a3 ssid ch extras) None = Ok f /\ s_parse_probe_req f = Ok expect) /\
